@@ -410,6 +410,11 @@ def resolveCandidatesUnfixed (S : Schema) (tn : String) : List String :=
     else []
   | none => []
 
+/-- Type resolution that stops at the first implementation claiming the value and only then tests its
+    features (the shape of seeded change C13-9) — kept for the negation witness. -/
+def resolveTypeClaimFirst (S : Schema) (F : Feats) (abstract : String) (claimed : List String) : Option String :=
+  ((resolveCandidatesUnfixed S abstract).find? (fun c => claimed.contains c)).filter (S.visible F)
+
 /-- `doesFragmentTypeApply(objectType, fragmentType)` (executor.go:546-567): raw memberships. -/
 def fragApplies (S : Schema) (objT fragT : String) : Bool :=
   match S.find? fragT with
